@@ -1,6 +1,7 @@
 /-
   Dirk.Gen.Kernels — GENERATED — do not edit.  Regenerated on every run by /verif/factx (kernels.go) from the
-  Go source of the decision kernels (rules/standard, services/checker/static, services/process/standard);
+  Go source of the decision kernels (rules/standard, services/checker/static, services/process/standard,
+  util/scatter.go, services/api/grpc/handlers/receiver, services/peers/static);
   Dirk/Props/KernelsEq.lean proves each definition
   equal to the hand-written model function.  A kernel outside the translatable fragment appears as
   `kernelUntranslatable_<name>` instead, and KernelsEq.lean does not build.
@@ -11,6 +12,10 @@ import Dirk.Model.Checker
 set_option linter.unusedVariables false
 
 namespace Dirk.Gen
+
+/-- Go `int` arithmetic (64-bit two's complement): the result of `+ - * /` reduced to the representable range
+    (fixed text, not translated from any source). -/
+def wrapI64 (x : Int) : Int := (x + 9223372036854775808) % 18446744073709551616 - 9223372036854775808
 
 /-- `runSignBeaconAttestationChecks` (rules/standard/signbeaconattestations.go), translated statement by statement; model counterpart: `Dirk.attChecks`. -/
 def attChecksGen (domain : Bytes) (src : Nat) (tgt : Nat) (stSrc : Int) (stTgt : Int) : Verdict × (Int × Int) :=
@@ -161,6 +166,114 @@ def fixedAcceptsGuards : List String := [
   "len(vVec) != int(generation.threshold) => refuse",
   "!verifyContribution(generation.id, secret, vVec) => refuse",
   "accept: the contribution is stored (2 assignments), return …, nil"
+]
+
+/-- `calculateExtentSize` (util/scatter.go), Go `int` arithmetic statement by statement (`/` = Int.tdiv, `%` = Int.tmod, results kept in the int64 range by wrapI64).
+    `items`: the parameter; `procs`: runtime.GOMAXPROCS(0) (the runtime guarantees >= 1); `none` = integer divide by zero (panic); model counterpart: `Dirk.extentSize`. -/
+def extentSizeGen (items procs : Int) : Option Int :=
+  if procs = 0 then none else  -- integer divide by zero: run-time panic
+  let extentSize : Int := wrapI64 (Int.tdiv items procs)
+  if extentSize = 0 then some 1 else
+  if extentSize = 0 then none else  -- integer divide by zero: run-time panic
+  let extentSize : Int := if (Int.tmod items extentSize) > 0 then wrapI64 (extentSize + 1) else extentSize
+  some extentSize
+
+/-- the guards of `calculateExtentSize`, as written in the source, in order -/
+def extentSizeGuards : List String := [
+  "extentSize := items / runtime.GOMAXPROCS(0)",
+  "extentSize == 0 => return 1",
+  "items%extentSize > 0 => extentSize++",
+  "return extentSize"
+]
+
+/-- `senderID` (services/api/grpc/handlers/receiver/helpers.go), the loop over the map h.peers.All(): entries (id, name) in ITERATION order (unspecified in Go), `acc` = the result variable so far; model counterpart: `Dirk.Dkg.senderId (the name → id resolution it presupposes)`. -/
+def senderIdLoopGen (caller : String) (acc : Nat) : List (Nat × String) → Nat
+  | [] => acc
+  | p :: ps => if p.2 = caller then p.1 else senderIdLoopGen caller acc ps
+
+/-- `senderID` (services/api/grpc/handlers/receiver/helpers.go), for a context that carries the client name `caller`; the result variable starts as 0 (`var senderID uint64`); model counterpart: `Dirk.Dkg.senderId (the name → id resolution it presupposes)`. -/
+def senderIdGen (peers : List (Nat × String)) (caller : String) : Nat :=
+  senderIdLoopGen caller 0 peers
+
+/-- `senderID` (services/api/grpc/handlers/receiver/helpers.go), the whole function; `client` = ctx.Value(&interceptors.ClientName{}) if it is a string (`none`: the loop is skipped); model counterpart: `Dirk.Dkg.senderId (the name → id resolution it presupposes)`. -/
+def senderIdCtxGen (client : Option String) (peers : List (Nat × String)) : Nat :=
+  match client with
+  | none => 0
+  | some caller => senderIdGen peers caller
+
+/-- the guards of `senderID`, as written in the source, in order -/
+def senderIdGuards : List String := [
+  "var senderID uint64",
+  "client, ok := ctx.Value(&interceptors.ClientName{}).(string); ok =>",
+  "  for id, peer := range h.peers.All() {  [map: iteration order unspecified]",
+  "    peer.Name == client => senderID = id; break",
+  "  }",
+  "return senderID"
+]
+
+/-- `OnCommit` (services/process/standard/service.go), the loop over generation.participants: `false` = some iteration refuses; model counterpart: `Dirk.Dkg.onCommit`. -/
+def commitListedGen : List (Bool × Bool) → Bool
+  | [] => true
+  | p :: ps =>
+    if (¬ p.1) ∨ (¬ p.2) then false
+    else commitListedGen ps
+
+/-- `OnCommit` (services/process/standard/service.go), the conditions between the lookup of the generation and the key aggregation, `true` = none of them refuses.
+    `nSecrets`: len(generation.sharedSecrets); `nVvecs`: len(generation.sharedVVecs); `nParticipants`: len(generation.participants);
+    `listed`: per listed participant, in order, (its ID is a key of sharedSecrets, its ID is a key of sharedVVecs); model counterpart: `Dirk.Dkg.onCommit`. -/
+def commitAcceptsGen (nSecrets nVvecs nParticipants : Nat) (listed : List (Bool × Bool)) : Bool :=
+  if nSecrets ≠ nParticipants then false
+  else if nVvecs ≠ nParticipants then false
+  else if ¬ commitListedGen listed then false
+  else true
+
+/-- the guards of `OnCommit`, as written in the source, in order -/
+def commitAcceptsGuards : List String := [
+  "generation, err := s.getGeneration(ctx, account); errors.Is(err, ErrNotFound) => refuse  [getGeneration returns (nil, ErrNotFound) or (generation, nil)]",
+  "len(generation.sharedSecrets) != len(generation.participants) => refuse",
+  "len(generation.sharedVVecs) != len(generation.participants) => refuse",
+  "for _, participant := range generation.participants {",
+  "  _, haveSecret := generation.sharedSecrets[participant.ID]",
+  "  _, haveVVec := generation.sharedVVecs[participant.ID]",
+  "  !haveSecret || !haveVVec => refuse",
+  "}",
+  "[translation stops at: privateKey := bls.SecretKey{}]"
+]
+
+/-- `getGeneration` (services/process/standard/generation.go), the one guard that reads the clock.  `now - started`: time.Since(generation.processStarted) (monotonic clock: never negative,
+    so the truncated subtraction of Nat is exact); `timeout`: s.generationTimeout (a Duration; the comparison is between Durations); model counterpart: `Dirk.Dkg.active`. -/
+def generationExpiredGen (now started timeout : Nat) : Bool :=
+  decide ((now - started) > timeout)
+
+/-- `getGeneration` (services/process/standard/generation.go), the whole function: (a generation is returned, the map entry is deleted); `present`: the account has an entry in s.generations; model counterpart: `Dirk.Dkg.active`. -/
+def getGenerationGen (present : Bool) (now started timeout : Nat) : Bool × Bool :=
+  if ¬ present then (false, false)
+  else if (now - started) > timeout then (false, true)
+  else (true, false)
+
+/-- the guards of `getGeneration`, as written in the source, in order -/
+def generationExpiredGuards : List String := [
+  "generator, exists := s.generations[account]  [map lookup: exists ↦ present]",
+  "!exists => return nil, ErrNotFound",
+  "time.Since(generator.processStarted) > s.generationTimeout => delete(s.generations, account); return nil, ErrNotFound",
+  "return generator, nil"
+]
+
+/-- `Suitable` (services/peers/static/service.go), the guards before the first allocation, `true` = one of them refuses.
+    `threshold`: the uint32 parameter; `npeers`: len(s.peers); model counterpart: `Dirk.suitableAlloc`. -/
+def suitableRefusesGen (threshold npeers : Nat) : Bool :=
+  if threshold > npeers then true
+  else false
+
+/-- `Suitable` (services/peers/static/service.go), … and the size of the first allocation (`make`) if none of them does: `none` = refused before anything is allocated; model counterpart: `Dirk.suitableAlloc`. -/
+def suitableAllocGen (threshold npeers : Nat) : Option Nat :=
+  if suitableRefusesGen threshold npeers then none else some threshold
+
+/-- the guards of `Suitable`, as written in the source, in order -/
+def suitableRefusesGuards : List String := [
+  "uint64(threshold) > uint64(len(s.peers)) => refuse",
+  "[skipped local: suitable := uint32(0)]",
+  "[first allocation: res := make([]*core.Endpoint, threshold)]"
 ]
 
 end Dirk.Gen
